@@ -187,12 +187,19 @@ def h_data_payload(eng, case):
 
 
 # ---------------------------------------------------------------------------------------------
-def check_interest(eng, name, digest_pos, P, app_param, signer_kind, signer, form='list', name_obj=None):
+def check_interest(eng, name, digest_pos, P, app_param, signer_kind, signer, form='list', name_obj=None, param_obj=None):
     """P: dict(cbp, mbf, nonce, lifetime, hop, hints)"""
     enc = _lib()
-    param = enc.InterestParam(can_be_prefix=P['cbp'], must_be_fresh=P['mbf'], nonce=P['nonce'],
-                              lifetime=P['lifetime'], hop_limit=P['hop'],
-                              forwarding_hint=[env.name_in_form(h, form) for h in P['hints']])
+    if param_obj is not None:
+        # the caller keeps ONE InterestParam object and re-assigns its fields between Interests
+        param = param_obj
+        param.can_be_prefix, param.must_be_fresh, param.nonce = P['cbp'], P['mbf'], P['nonce']
+        param.lifetime, param.hop_limit = P['lifetime'], P['hop']
+        param.forwarding_hint = [env.name_in_form(h, form) for h in P['hints']]
+    else:
+        param = enc.InterestParam(can_be_prefix=P['cbp'], must_be_fresh=P['mbf'], nonce=P['nonce'],
+                                  lifetime=P['lifetime'], hop_limit=P['hop'],
+                                  forwarding_hint=[env.name_in_form(h, form) for h in P['hints']])
     need_digest = app_param is not None or signer is not None
     in_name = list(name)
     if digest_pos is not None:
@@ -555,7 +562,15 @@ def h_reuse(eng, case):
     for i, step in enumerate(case['seq']):
         P = {'cbp': False, 'mbf': False, 'nonce': eng.int('nonce', 0, 2 ** 32 - 1), 'lifetime': None, 'hop': None,
              'hints': []}
-        if step == 'data_meta':
+        if step == 'int_param':
+            # the same InterestParam object for every Interest, its fields re-assigned in between
+            if 'IP' not in case:
+                case = dict(case, IP=_lib().InterestParam())
+            P2 = {'cbp': bool(eng.bool('cbp')), 'mbf': bool(eng.bool('mbf')), 'nonce': eng.int('nonce', 0, 2 ** 32 - 1),
+                  'lifetime': env.optional_int(eng, 'lifetime', 0, 2 ** 64 - 1), 'hop': env.optional_int(eng, 'hop', 0, 255),
+                  'hints': [env.name_from_shape(eng, [(1, 1)], 'h')] if eng.choice(2, 'hint?') else []}
+            check_interest(eng, name, None, P2, None, 'none', None, name_obj=L, param_obj=case['IP'])
+        elif step == 'data_meta':
             # the same MetaInfo object for every packet, its fields re-assigned in between (a producer of segments)
             if 'M' not in case:
                 case = dict(case, M=_lib().MetaInfo())
@@ -619,6 +634,7 @@ def cases(tier, seed):
                     ['int_sig', 'int_plain', 'data']):
             cs.append(('reuse', {'shape': sh, 'seq': seq}))
     cs.append(('reuse', {'shape': [[1, 1]], 'seq': ['data_meta', 'data_meta']}, {'weight': 30, 'split_depth': 4}))
+    cs.append(('reuse', {'shape': [[1, 1]], 'seq': ['int_param', 'int_param']}, {'weight': 30, 'split_depth': 4}))
     contents = [None, 0, 1, 2, 4] if quick else [None, 0, 1, 2, 3, 4, 6, 8]
     for sk in env.SIGNER_KINDS:
         for k in contents:
